@@ -21,7 +21,8 @@ from impl_res import CLASSES, Env, err_name, val_json  # noqa: E402
 ANN = {
     "T": ["T{t}", '"T{t}"', '"LocalT{t}"'],
     "Opt": ["Optional[T{t}]", "T{t} | None", '"Optional[T{t}]"', "Union[T{t}, None]", "None | T{t}",
-            '"LocalT{t} | None"'],
+            '"LocalT{t} | None"', "Optional['T{t}']", "Union['T{t}', None]", '"Optional[\'T{t}\']"',
+            "Optional['LocalT{t}']"],
     "Bad": ["Union[T{t}, T{u}]", "T{t} | T{u} | None", "Optional[Union[T{t}, T{u}]]"],
 }
 
